@@ -56,6 +56,8 @@ const dbName = "c18"
 
 var scratch string
 
+var exhaustiveDev bool
+
 func cleanup() {
 	if scratch != "" {
 		os.RemoveAll(scratch)
@@ -1370,6 +1372,15 @@ func main() {
 		}
 	}
 
+	// ---- remote-storage histories (remote.go). They go first: the part is small and bounded, so the internal
+	// deadline, if it is ever reached on an overloaded machine, cuts the large differential enumeration below
+	// (which then reports exhaustive=false) rather than skipping this part altogether.
+	dbs := make([]*database.DuckDB, len(workers))
+	for i, w := range workers {
+		dbs[i] = w.db
+	}
+	remoteExhaustive := remoteHistories(run, full, dbs)
+
 	// ---- the enumerated space
 	e0 := atomsToExprs(alphabet0(full))
 	a1 := atomsToExprs(alphabet1(full))
@@ -1445,6 +1456,11 @@ func main() {
 		}
 	}
 	cases = uniq
+	if os.Getenv("VERIF_C18_PART") == "remote" { // development aid: only the remote histories (evidence is marked partial)
+		cases = cases[:1]
+		run.Coverage["partial_dev_run"] = "VERIF_C18_PART=remote: the differential part was skipped"
+		exhaustiveDev = true
+	}
 
 	// ---- phase 1: evaluate every case
 	type failure struct {
@@ -1514,7 +1530,7 @@ func main() {
 		}(w)
 	}
 	wg.Wait()
-	exhaustive := stopped == 0
+	exhaustive := stopped == 0 && !exhaustiveDev
 	if gtBad > 0 {
 		// the reference run itself does not select the rows the fixture puts in a window: the grid would be
 		// comparing something else than intended (literal interpretation, session time zone)
@@ -1715,9 +1731,15 @@ func main() {
 	run.Coverage["layouts"] = []string{"cpu: hour directories", "mem: compacted day files", "disk: day files + one un-compacted hour directory + hour directories for now-relative days"}
 	run.Coverage["store_dirs"] = listing
 	run.Coverage["alphabet_sizes"] = map[string]int{"depth0_atoms": len(e0), "depth1_atoms": len(a1), "depth1_new_exprs": len(e1new), "depth2_atoms": len(a2), "depth2_new_exprs": len(e2new)}
-	run.Coverage["rule"] = "cases = templates x layouts x WHERE expressions; WHERE = every atom of the depth-0 alphabet (5 comparison ops x literals {date-only, second precision, Z, +02:00, run-relative, NOW()/CURRENT_TIMESTAMP +- INTERVAL} on time, BETWEEN pairs, the same on string columns uptime/event_time, host/v atoms), plus NOT x / (x AND y) / (x OR y) closed once over alphabet1 for every template and twice (depth 2, parenthesised) over alphabet2 for the plain template (thorough: all three layouts, and the join template); plus the window grid: every ordered pair of the instants {3 consecutive days x times of day 00:00, 03:30, 22:00 (thorough: + 12:00)} + {day 4 00:00} as a window (inside a day, over 1-3 midnights, end time-of-day before/equal/after the start's, bounds exactly at 00:00) x comparison forms (>= <, > <=, BETWEEN, +02:00 and -05:00 offset literals; thorough 3 more) x every assignment of {hour directories, day-level compacted file (thorough: + day file with a left-over hour directory)} to the three days, plain template (thorough: + no-order, aggregate, header-db on the layouts without a left-over hour directory); for the grid the unpruned result is also compared with the fixture's ground truth. A case is non-trivial when the enabled pruner changes the SQL sent to DuckDB (only those are executed through both HTTP handlers; byte-identical SQL on a static store is equal by construction); distinct_nontrivial = distinct pruned path sets."
-	run.Coverage["samples"] = samples.List()
-	run.Assume("LocalBackend only (S3/Azure path filtering is not exercised)")
+	run.Coverage["rule"] = "cases = templates x layouts x WHERE expressions; WHERE = every atom of the depth-0 alphabet (5 comparison ops x literals {date-only, second precision, Z, +02:00, run-relative, NOW()/CURRENT_TIMESTAMP +- INTERVAL} on time, BETWEEN pairs, the same on string columns uptime/event_time, host/v atoms), plus NOT x / (x AND y) / (x OR y) closed once over alphabet1 for every template and twice (depth 2, parenthesised) over alphabet2 for the plain template (thorough: all three layouts, and the join template); plus the window grid: every ordered pair of the instants {3 consecutive days x times of day 00:00, 03:30, 22:00 (thorough: + 12:00)} + {day 4 00:00} as a window (inside a day, over 1-3 midnights, end time-of-day before/equal/after the start's, bounds exactly at 00:00) x comparison forms (>= <, > <=, BETWEEN, +02:00 and -05:00 offset literals; thorough 3 more) x every assignment of {hour directories, day-level compacted file (thorough: + day file with a left-over hour directory)} to the three days, plain template (thorough: + no-order, aggregate, header-db on the layouts without a left-over hour directory); for the grid the unpruned result is also compared with the fixture's ground truth. A case is non-trivial when the enabled pruner changes the SQL sent to DuckDB (only those are executed through both HTTP handlers; byte-identical SQL on a static store is equal by construction); distinct_nontrivial = distinct pruned path sets. These counts are the differential (local store) part only; the remote-storage histories (s3:// / azure:// existence filter and its caches, judged on the pruned path list) have their own rule and counts under remote_histories."
+	run.Coverage["samples"] = append(samples.List(), remoteSamples...)
+	if !remoteExhaustive {
+		exhaustive = false
+		run.Coverage["exhaustive"] = false
+	}
+	run.Assume("differential part (rows): LocalBackend only. Remote (s3:// / azure://) existence filtering is judged on the path list of the handler's rewrite step over a fake List/ListDirectories backend (remote histories), not by executing DuckDB against a remote store; storage.GetStoragePath, bucket key prefixes and the SDK backends' own listing code are not exercised")
+	run.Assume("remote histories: the passage of time is applied by ageing the cache entries through an accessor; real elapsed time (micro- to milliseconds per history) only makes entries older, i.e. answers fresher, and the oracle never demands staleness")
+	run.Assume("remote histories: a partition that appeared less than glob TTL + partition TTL ago (and after the last InvalidateCaches) may be missing from a pruned list: bounded staleness of the two caches is taken as designed, not as a violation")
 	run.Assume("session time zone UTC (DuckDB and Go); rows are >= 22 h away from every NOW()-relative boundary and from the pruner's implicit now+1d end")
 	run.Assume("tiering disabled, RBAC disabled, JSON wire format (duckdb_arrow path); transform/partition caches are in their production configuration")
 	run.Assume("queries whose transformed SQL is byte-identical with and without the pruner are counted but not executed")
